@@ -477,6 +477,22 @@ func GetLookupPath() string {
 	return runningConfig.DataPath + "lookups/"
 }
 
+// ResolveLookupFile returns the path of the lookup file called name. The name comes from API
+// clients (upload form, URL, query text); it is rejected when it would resolve to anything that
+// is not inside the lookups directory (e.g. "../x", "a/../../x") or contains a NUL byte.
+func ResolveLookupFile(name string) (string, error) {
+	if name == "" || strings.ContainsRune(name, 0) {
+		return "", fmt.Errorf("invalid lookup file name: %q", name)
+	}
+	baseDir := filepath.Clean(GetLookupPath())
+	fullPath := filepath.Join(baseDir, name)
+	rel, err := filepath.Rel(baseDir, fullPath)
+	if err != nil || rel == "." || rel == ".." || strings.HasPrefix(rel, ".."+string(filepath.Separator)) {
+		return "", fmt.Errorf("invalid lookup file name: %q", name)
+	}
+	return fullPath, nil
+}
+
 // returns if tls is enabled
 func IsTlsEnabled() bool {
 	return runningConfig.TLS.Enabled
